@@ -138,6 +138,20 @@ def run_harnesses(ku, harnesses, jobs=8, playback=False, extra_flags=()):
         return
     procs = []
     pending = list(harnesses)
+    # thorough-tier harnesses only: a harness that already succeeded on the byte-identical generated crate (same source text,
+    # manifest, lock file, harness and flags) in this checkout is not re-run; the evidence says so. Quick-tier harnesses, failures
+    # and undecided results are never cached. VERIF_NO_CACHE=1 disables the reuse.
+    if not playback and not os.environ.get('VERIF_NO_CACHE'):
+        for h in list(pending):
+            if h.tier != 'thorough' or h.kind == 'canary':
+                continue
+            c = _cache_load(ku, h, extra_flags)
+            if c:
+                h.status = 'success'
+                h.time_s = c.get('time_s', 0.0)
+                h.detail = (c.get('detail') or '') + f" [reused: identical generated crate verified at {c.get('when')}, {c.get('time_s', 0):.0f} s]"
+                h.cached = True
+                pending.remove(h)
     running = []
     while pending or running:
         while pending and len(running) < jobs:
@@ -172,6 +186,35 @@ def run_harnesses(ku, harnesses, jobs=8, playback=False, extra_flags=()):
                 running.remove(item)
                 if h.status is None:
                     _parse_result(ku, h, rc)
+                if h.status == 'success' and h.tier == 'thorough' and h.kind != 'canary' and not playback:
+                    _cache_store(ku, h, extra_flags)
+
+
+def _cache_key(ku, h, extra_flags):
+    import hashlib
+    parts = [ku.src or '']
+    for fn in ('Cargo.toml', 'Cargo.lock'):
+        pth = os.path.join(ku.dir, fn)
+        parts.append(open(pth).read() if os.path.exists(pth) else '')
+    parts += [h.name, ' '.join(extra_flags), 'kani-0.68.0', str(h.mem_gb)]
+    return hashlib.sha256('\x00'.join(parts).encode()).hexdigest()
+
+
+def _cache_load(ku, h, extra_flags):
+    pth = os.path.join(VERIF, 'work', 'kcache', _cache_key(ku, h, extra_flags) + '.json')
+    try:
+        c = json.load(open(pth))
+        return c if c.get('status') == 'success' and c.get('harness') == h.name else None
+    except Exception:
+        return None
+
+
+def _cache_store(ku, h, extra_flags):
+    d = os.path.join(VERIF, 'work', 'kcache')
+    os.makedirs(d, exist_ok=True)
+    with open(os.path.join(d, _cache_key(ku, h, extra_flags) + '.json'), 'w') as f:
+        json.dump(dict(status='success', harness=h.name, unit=ku.unit, detail=h.detail, time_s=h.time_s,
+                       when=time.strftime('%Y-%m-%dT%H:%M:%SZ', time.gmtime())), f)
 
 
 def _q(s):
